@@ -68,6 +68,8 @@ def gen_plan(rng, tier, i, seed):
     return {"w": w, "loss": loss, "route": route, "out": out, "multi": multi,
             "hashseed": rng.choice([0, 1, 2]),
             "k": rng.choice([0, 1, 5, 50, 200]), "which_open": rng.choice([2, 3]),
+            # history: the healthy sample (same file name) is genotyped first in the same process
+            "warm": rng.random() < 0.5,
             "err": rng.choice(["OSError", "OSError", "ValueError"])}
 
 
@@ -103,7 +105,8 @@ def execute(plan, runner, rundir):
     pil = pilot(plan["route"], plan["out"])
     res = runner.segment(dict(common, kind="loss", hashseed=plan["hashseed"], rundir=rundir, route=plan["route"],
                               out=plan["out"], loss=plan["loss"], multi=plan["multi"], avg=pil["avg_a"],
-                              k=plan["k"], which_open=plan["which_open"], err=plan["err"]))
+                              k=plan["k"], which_open=plan["which_open"], err=plan["err"],
+                              warm=plan.get("warm", False)))
     return {"pilot": pil, "run": res}
 
 
@@ -130,8 +133,12 @@ def judge(plan, outcome):
     has_del = any(al["kind"] == "deletion" for al in ga["alleles"]) and ga["pregions"] is not None
     fired = r["fired"]
     expect_error = loss in ("locus", "neutral", "neutral_sparse", "empty", "depth_below", "seam_drop_locus")
+    if loss == "gene_only" and not has_del:
+        # reads cover the pseudogene but the database has no whole-gene deletion allele: the statement
+        # does not say what must happen (the locus is covered, a deletion cannot be called)
+        return vs
     if loss == "gene_only":
-        expect_error = not has_del
+        expect_error = False
     if loss == "stream_error":
         expect_error = bool(fired.get("stream_error"))
     if loss == "depth_above":
@@ -214,6 +221,10 @@ def shrink(plan):
         p = copy.deepcopy(plan)
         p["hashseed"] = 0
         yield p
+    if plan.get("warm"):
+        p = copy.deepcopy(plan)
+        p["warm"] = False
+        yield p
 
 
 def new_stats():
@@ -294,9 +305,8 @@ def _lossy_bam(seg, world, smp, loss, path):
         keep_a, keep_b = next((a, b) for nm, a, b in ga["regions"] if nm == "up")
         regs = list(ga["regions"]) + list(ga["pregions"] or [])
         lo, hi = min(a for _, a, b in regs), max(b for _, a, b in regs)
-        spans = [(lo - 400, keep_a + 5), (keep_b - 5, hi + 400)] if keep_a > lo else [(keep_b - 5, hi + 400)]
-        if ga["strand"] == "-":
-            spans = [(lo - 400, keep_a + 5), (keep_b - 5, hi + 400)]
+        # (no margin beyond the locus: the neighbouring gene's reads must stay untouched)
+        spans = [(lo, keep_a + 5), (keep_b - 5, hi)]
     if loss in ("locus",):
         regs = list(ga["regions"]) + list(ga["pregions"] or [])
         spans = [(min(a for _, a, b in regs) - pad, max(b for _, a, b in regs) + pad)]
@@ -391,6 +401,11 @@ def run_segment(seg):
         if ga["pregions"]:
             stream["drop"] = [[min(x for _, x, y in ga["regions"]), max(y for _, x, y in ga["regions"])],
                               [min(x for _, x, y in ga["pregions"]), max(y for _, x, y in ga["pregions"])]]
+    if seg.get("warm"):
+        # an earlier, healthy run in the same process (an API user or `--gene all` does this)
+        w = O.run_genotype(dba, os.path.join(wd, man["samples"]["s0"]), prof, None, cn_region=cnr, cn_solution=cns)
+        w.pop("_raw", None)
+        streams.reset()
     if stream:
         SIM.cfg["stream"] = stream
     db = f"{dba},{dbb}" if seg["multi"] else dba
